@@ -1,19 +1,28 @@
 (** C06 Huffman container.
-    Proved here: the code lengths are those of an optimal prefix code for the merged statistics
-    (for every count profile), a lone symbol gets one bit, raw mode round-trips.
-    the bit iterator yields exactly the bits of any range at every alignment, and push_symbols
-    (u64 encoder register, peel and re-emit of the trailing partial byte) appends exactly the code
-    words at every alignment.
-    the decoder (u16 register, restocking, nested table walk, end-of-item and partial-byte paths)
-    decodes any concatenation of code words exactly, and hence push followed by read returns the
-    pushed symbols at every alignment -- RELATIVE to [tab_ok]: the nested tables built by
-    insert_decode answer every code word with (symbol, length).
-    NOT proved (partial): [tab_ok] for the tables that create_from builds (canonical codes are
-    prefix-free and insert_decode fills disjoint ranges); that link is decided by the
-    correspondence (the executable model agrees with the crate on bit ranges and decoded symbols
-    exactly) and by the implementation-side oracle. *)
-From FC Require Import Base.Res Region.Region Huffman.Huffman Huffman.HuffOpt Huffman.HuffTree Huffman.Bits Huffman.BitIter Huffman.EncoderOk Huffman.DecoderOk Huffman.RoundTrip.
-From Coq Require Import ZArith Permutation Sorted.
+    Proved here, for the executable word-level model of src/impls/huffman_container.rs:
+    - the code lengths are those of an optimal prefix code for the merged statistics (for every
+      count profile), a lone symbol gets one bit;
+    - the bit iterator yields exactly the bits of any range at every alignment, and push_symbols
+      (u64 encoder register, peel and re-emit of the trailing partial byte) appends exactly the code
+      words at every alignment;
+    - the decoder (u16 register, restocking, nested table walk, end-of-item and partial-byte paths)
+      decodes any concatenation of code words exactly;
+    - the tables that create_from builds are correct for ANY statistics: the canonical codes over
+      the sorted levels are prefix-free (Kraft equality of the tree's depths), insert_decode fills
+      the nested 256-entry tables so that every stream starting with a code word walks to its
+      symbol, exactly the symbols of the statistics have a code ([C06_tables_correct]);
+    - hence push followed by read returns the pushed symbols at every alignment, for every
+      container built by merge_regions, in every state any history of pushes and clears reaches
+      ([C06_roundtrip_every_alignment], [C06_merged_history]); a symbol outside the statistics is
+      refused by a panic ([C06_refusal]); the accepted sequences are exactly those over the
+      symbols pushed into the source regions ([C06_accepts_exactly_statistics]);
+    - raw mode (before any merge, after clear) round-trips everything.
+    The one hypothesis: code lengths of at most 57 bits ([mergeable] = [bound]), the limit of the
+    64-bit encoder register that the crate's own comment concedes (a Huffman code that deep needs
+    more than 10^11 pushed symbols). *)
+From FC Require Import Base.Res Region.Region Huffman.Huffman Huffman.HuffOpt Huffman.HuffTree Huffman.Bits Huffman.BitIter Huffman.EncoderOk Huffman.DecoderOk Huffman.RoundTrip Huffman.TableIns Huffman.TableOk Huffman.HuffRegion.
+From FC Require Region.History.
+From Coq Require Import ZArith Permutation Sorted Lia.
 
 (** The greedy (Huffman) cost on the sorted weights is a lower bound for EVERY pairing of the
     weights with EVERY multiset of leaf depths realisable by a binary tree. *)
@@ -101,3 +110,59 @@ Proof.
 Qed.
 Theorem C06_clear_is_raw : forall x, fst (clear huffman_region x) = HRaw [].
 Proof. reflexivity. Qed.
+
+(** The tables [create_from] builds, for ANY statistics (distinct symbols, non-negative counts) whose
+    code lengths stay within 57 bits: every stream that starts with a code word walks the nested
+    tables to (its symbol, its length); every symbol of the statistics has a code of 1..57 bits whose
+    value fits; no other symbol has a code. *)
+Theorem C06_tables_correct : forall counts, NoDup (map fst counts) ->
+  Forall (fun sc : sym * Z => (0 <= snd sc)%Z) counts ->
+  Forall (fun ls : nat * sym => fst ls <= 57) (levels_of counts) ->
+  let h := create_from counts in
+  tab_ok (dtab h) (codes (enc h)) /\
+  (forall syms, Forall (fun s => In s (map fst counts)) syms -> covered (enc h) syms) /\
+  (forall s, ~ In s (map fst counts) -> lookup_code s (enc h) = None).
+Proof. exact create_from_ok. Qed.
+
+(** The Huffman container meets the region contract: round trip, frame (append-only), clear,
+    merge, for every state -- so every generic theorem and every combinator applies to it. *)
+Theorem C06_region_contract : RegionOK huffman_region.
+Proof. exact huffman_ok. Qed.
+
+(** Every container built by merge_regions from well-formed regions (code lengths within the
+    register): ANY history of pushes (of sequences whose symbols have codes) and clears runs without
+    panic, and in every state it reaches every index issued since the last clear reads back exactly
+    the pushed symbols. *)
+Theorem C06_merged_history : forall l (ops : list (History.op huffman_region)),
+  Forall inv l -> mergeable l -> History.covered ops (merge huffman_region l) ->
+  exists s' log' tr', History.run ops (merge huffman_region l) [] [] = Ok (s', log', tr') /\ inv s' /\ History.log_ok s' log'.
+Proof.
+  intros l ops Hl Hm Hc.
+  exact (@History.run_ok huffman_region huffman_spec huffman_ok ops (merge huffman_region l) [] []
+           (@merge_inv huffman_region huffman_spec huffman_ok l Hl Hm) (Forall_nil _) Hc).
+Qed.
+
+(** ... and it accepts exactly the sequences over the symbols that occur in the statistics of the
+    regions it was built from (the symbols pushed into them). *)
+Theorem C06_accepts_exactly_statistics : forall l v, Forall inv l -> mergeable l ->
+  (dom (merge huffman_region l) v <-> Forall (fun x => exists r, In r l /\ In x (map fst (snd r))) v).
+Proof. exact merged_dom. Qed.
+Theorem C06_statistics_are_pushed_symbols : forall v m k,
+  In k (map fst (count_syms m v)) <-> In k v \/ In k (map fst m).
+Proof. exact count_syms_keys. Qed.
+
+(** a sequence containing a symbol without a code is refused by a panic at push; nothing is stored *)
+Theorem C06_refusal : forall h bytes bits stats v, ~ dom (HEnc h bytes bits, stats) v ->
+  push huffman_region (HEnc h bytes bits, stats) v = Panic.
+Proof. exact huffman_refuses. Qed.
+
+(** non-vacuity: a concrete merged container satisfies the hypotheses *)
+Example C06_nonvacuous :
+  let src : hstate := (HRaw [1; 2; 2; 3; 3; 3; 3; 7]%N, count_syms [] [1; 2; 2; 3; 3; 3; 3; 7]%N) in
+  Forall inv [src] /\ mergeable [src] /\ dom (merge huffman_region [src]) [3; 7; 1; 2]%N.
+Proof.
+  split; [|split].
+  - constructor; [|constructor]. split; [|exact I]. vm_compute. repeat constructor.
+  - vm_compute. repeat constructor.
+  - vm_compute. repeat constructor; discriminate.
+Qed.
